@@ -175,6 +175,47 @@ def run(ctx):
                                   {"norb": norb, "nelec": ne, "projector_drift": float(drift)}))
         except Exception as ex:
             spec_fail.append((f"{kind}.optimize", "optimisation runs", {"norb": norb, "nelec": ne, "error": repr(ex)[:300]}))
+    # ---- a converged broken-symmetry solution handed over together with the density kept for the mean-field shift
+    # (wave_data["rdm1"], here the spin-averaged one): the converged orbitals must still be a fixed point
+    for nsite, ne, u in (((6, (3, 3), 4.0),) if ctx.tier == "quick" else ((6, (3, 3), 4.0), (4, (2, 2), 6.0), (6, (4, 3), 4.0))):
+        try:
+            K = np.zeros((nsite, nsite))
+            for i in range(nsite - 1):
+                K[i, i + 1] = K[i + 1, i] = -1.0
+            L = np.zeros((nsite, nsite, nsite))
+            for i in range(nsite):
+                L[i, i, i] = np.sqrt(u)
+            h1 = np.array([K, K])
+            # antiferromagnetic start
+            da = np.diag([0.9 if i % 2 == 0 else 0.1 for i in range(nsite)]) * (ne[0] / (nsite / 2.0)) * 0.5
+            db = np.diag([0.1 if i % 2 == 0 else 0.9 for i in range(nsite)]) * (ne[1] / (nsite / 2.0)) * 0.5
+            dm = independent_scf(h1, L, ne, [da, db], iters=2000)
+            D = dm[0] + dm[1]
+            J = sum(np.sum(l * D) * l for l in L)
+            cs = []
+            for sp in (0, 1):
+                Kx = sum(l @ dm[sp] @ l for l in L)
+                w, v = np.linalg.eigh(h1[sp] + J - Kx)
+                cs.append(v[:, :ne[sp]])
+            conv = max(np.abs(cs[sp] @ cs[sp].T - dm[sp]).max() for sp in (0, 1))
+            polar = float(np.abs(dm[0] - dm[1]).max())
+            if conv > 1e-9 or polar < 0.05:
+                continue            # not a converged broken-symmetry solution: nothing to test here
+            ham = {"h0": 0.0, "h1": jnp.array(h1), "chol": jnp.array(L.reshape(nsite, -1))}
+            trial = wavefunctions.uhf(nsite, ne)
+            avg = 0.5 * (dm[0] + dm[1])
+            wd = {"mo_coeff": [jnp.array(cs[0]), jnp.array(cs[1])], "rdm1": jnp.array([avg, avg])}
+            out = trial.optimize(dict(ham), dict(wd))
+            co = [np.array(out["mo_coeff"][0]), np.array(out["mo_coeff"][1])]
+            drift = max(np.abs(co[sp] @ co[sp].T - dm[sp]).max() for sp in (0, 1))
+            evals += 1
+            if drift > 1e-6:
+                spec_fail.append(("uhf.optimize", "leaves a converged Hartree-Fock solution unchanged (same occupied space)",
+                                  {"system": f"{nsite}-site Hubbard chain U={u}", "nelec": ne, "projector_drift": float(drift), "spin_polarisation": polar,
+                                   "energy_before": hf_energy(0.0, h1, L, dm), "energy_after": hf_energy(0.0, h1, L, [co[0] @ co[0].T, co[1] @ co[1].T]),
+                                   "note": "wave_data also carries the spin-averaged rdm1 used for the mean-field shift"}))
+        except Exception as ex:
+            spec_fail.append(("uhf.optimize", "broken-symmetry fixed-point run executes", {"error": repr(ex)[:300]}))
     ctx.cov["evaluations"] = evals + len(refs)
     ctx.cov["distinct_nontrivial"] = evals
     ctx.cov["rule"] = ("symmetric matrices of size 2-5 with non-degenerate, exactly degenerate and nearly degenerate (gaps 1e-9..3e-6) spectra and dyadic symmetric "
